@@ -460,6 +460,22 @@ def check(ctx):
                 # (below the bar the factor is used with a negative exponent: C04 promises 1e-9 there, not exactness)
                 ctx.violation("updown:%s" % text, text + ("   (after `%s`)" % (num[0] if text == den[0] else den[0]) if (text == den[0]) == (idx < half) else ""),
                               str(want), repr(v), "one process: `%s` then `%s`" % ((num[0], den[0]) if idx < half else (den[0], num[0])))
+    # … and units whose factor is a FLOAT (in, ft, mi, lb, gal, eV, ly …), plain and prefixed, below the bar of a signature whose part
+    # above it has an integral factor: a value of the right size (1e-9: the factor is used with a negative exponent), never an escape
+    candf = [(w, c) for w, c in uniq if c[0] == "unique" and units[c[2]].offset == 0 and isinstance(units[c[2]].multiple, float)
+             and one_identifier(w) and target_of(units[c[2]]) is not None and "cash" not in units[c[2]].quantities]
+    rng.shuffle(candf)
+    for w, c in candf[: ctx.n(80, 1500)]:
+        u, m = units[c[2]], c[1]
+        tgt = target_of(u)
+        other = rng.choice(["m", "s", "A"])
+        if units[sorted(by_spelling[other])[0]].quantity_vector == u.quantity_vector:
+            other = "K"
+        text = "6 %s | %s to %s | %s" % (other, w, other, tgt)
+        st, v = R.value(text)
+        ctx.count("below-bar-float:" + text, bucket="pipeline/float factor below the bar")
+        if st != "ok" or isinstance(v, bool) or not isinstance(v, (int, Fraction, float)) or not close(Fraction(v), Fraction(6) / m, Fraction(1, 10**9)):
+            ctx.violation("updown:%s" % text, text, "%s (1e-9)" % float(Fraction(6) / m), repr(v), "execute(%r)" % text)
     # a registered spelling that ALSO splits into prefix + unit (cd, ft, min, pt, yd, kyd, php …) always means the registered unit:
     # as a conversion TARGET too, whatever the dimension of the source (a source of the split reading's dimension must be refused)
     for w, b_ in spellings:
